@@ -156,7 +156,8 @@ fn function_level(seed: u64, interior: u64, cases: u64) -> Acc {
             let p: u128 = match r.gen_range(0..6) {
                 0 => MIN_SQRT_PRICE_X64 + r.gen_range(0..1000u128),
                 1 => MAX_SQRT_PRICE_X64 - r.gen_range(0..1000u128),
-                2 => table[r.gen_range(0..table.len())] + r.gen_range(0..3u128),
+                // (the last entry of the table is the largest supported price: stay inside the range)
+                2 => (table[r.gen_range(0..table.len())] + r.gen_range(0..3u128)).min(MAX_SQRT_PRICE_X64),
                 _ => rnd::sqrt_price(&mut r),
             };
             let mut prev: Option<(u128, u128)> = None;
